@@ -1,6 +1,7 @@
 package regnet
 
 import (
+	"bytes"
 	"encoding/hex"
 	"errors"
 	"fmt"
@@ -38,7 +39,7 @@ type OutSpec struct {
 }
 type TxSpec struct {
 	ID      string
-	Kind    string // cb ra wd rd pp rv tk ot
+	Kind    string // cb ra wd rd pp rv tk sp ot
 	PVer    byte
 	Nonce   string // hex of the Nonce attribute ("-" = no attribute)
 	Ins     []InSpec
@@ -268,6 +269,9 @@ func (n *Node) BuildTx(ts *TxSpec, height uint32) (interfaces.Transaction, error
 			MessageHash: ph(1), MessageData: pd(1), Stage: 1, OwnerKey: n.pub(1), NewOwnerKey: []byte{},
 			OwnerSignature: []byte{4}, NewOwnerSignature: []byte{}, SecretaryGeneralOpinionHash: ph(0),
 			SecretaryGeneralOpinionData: pd(0), SecretaryGeneralSignature: []byte{5}}
+	case "sp": // side-chain mining proof in the original format (with inputs); the signature travels in pdatas
+		txType = ctypes.SideChainPow
+		pl = &payload.SideChainPow{SideBlockHash: ph(0), SideGenesisHash: ph(1), BlockHeight: 1, Signature: pd(0)}
 	case "ot":
 		txType = ctypes.TransferAsset
 		pl = &payload.TransferAsset{}
@@ -275,7 +279,7 @@ func (n *Node) BuildTx(ts *TxSpec, height uint32) (interfaces.Transaction, error
 		return nil, fmt.Errorf("regnet: cannot build kind %q", ts.Kind)
 	}
 	tx := functions.CreateTransaction(version, txType, ts.PVer, pl, attrs, ins, outs, lock, []*program.Program{})
-	if ts.Kind == "ot" {
+	if ts.Kind == "ot" || ts.Kind == "sp" {
 		n.signByOwners(tx)
 	}
 	return tx, nil
@@ -382,4 +386,17 @@ func (n *Node) TxIDs() []string {
 		r = append(r, id)
 	}
 	return r
+}
+
+// SideChainPowSig signs a side-chain mining proof with the key of account i (the harness makes
+// account 0 the only origin arbiter when Sim.OwnArbiter is set, so it is always on duty).
+func (n *Node) SideChainPowSig(i int, sideBlock, sideGenesis string) string {
+	pl := &payload.SideChainPow{SideBlockHash: PadHash(sideBlock), SideGenesisHash: PadHash(sideGenesis), BlockHeight: 1}
+	buf := new(bytes.Buffer)
+	pl.Serialize(buf, payload.SideChainPowVersion)
+	sig, err := crypto.Sign(n.Accounts[i].PrivateKey, buf.Bytes()[0:68])
+	if err != nil {
+		panic("harness: " + err.Error())
+	}
+	return hex.EncodeToString(sig)
 }
